@@ -297,6 +297,13 @@ def gen_tree(rng, stream):
                 kind = rng.choice(kinds)
                 s = gen_shape(rng, kind, counter['s'])
                 s['tf'] = gen_tf(rng, exact_ok, 0.55)
+                if kind == 'rect' and stream == 'main' and ('rx' in s['attrs'] or 'ry' in s['attrs']):
+                    # a rounded rect is a path with arcs (on every route once rect2pathd is repaired):
+                    # like circles, in the main stream only where no transform applies
+                    if plain:
+                        s['tf'] = []
+                    else:
+                        s['attrs'].pop('rx', None); s['attrs'].pop('ry', None); s['attrs']['mode'] = 'plain'
                 if kind in ('circle', 'ellipse'):
                     if stream == 'main':
                         if not plain:
@@ -316,6 +323,13 @@ def gen_tree(rng, stream):
             continue
         if stream == 'arcs':
             ok = any(s['kind'] in ('circle', 'ellipse') and not is_identity(ctm) for s, ctm, _ in shapes)
+            if ok and rng.random() < 0.5:
+                # sometimes also a rounded rect under a transform
+                g = rng.choice([n for n in iter_groups(root)])[0]
+                s = gen_shape(rng, 'rect', counter['s'])
+                s['tf'] = gen_tf(rng, False, 0.3)
+                counter['s'] += 1
+                g['kids'].append(s)
             if not ok:
                 # force one
                 g = rng.choice([n for n in iter_groups(root)])[0]
@@ -558,11 +572,60 @@ def scale_of(o, root):
     return m
 
 
-OKDEF = r'''
+OKDEF_T = r'''
 From SVP Require Import Model.SvgTree Model.SvgTreeCheck.
-Definition casety : Type := (Qc * qnode * obs)%type.
-Definition ok (c : casety) : nat := check_case c.
+Definition casety : Type := (Qc * qnode * obs)%%type.
+(* the variant of the code detected by the probes (false = pinned code) *)
+Definition the_cfg : cfg := %s.
+Definition ok (c : casety) : nat := check_case the_cfg c.
 '''
+
+FLAGS = ['rect_attr', 'rect_clamp', 'line_default', 'group_empty', 'sax_line', 'sax_order', 'sax_keep']
+
+
+def probe_flags(scratch):
+    """which variant of each repaired behaviour does the implementation run?  Each probe is the
+    witness of the corresponding `_refuted` Example of Props/C17.v"""
+    from svgpathtools import Document, svg2paths, SaxDocument, Arc
+    NS = 'xmlns="http://www.w3.org/2000/svg"'
+    def wr(name, body):
+        p = os.path.join(scratch, name)
+        with open(p, 'w') as f:
+            f.write('<svg %s>%s</svg>' % (NS, body))
+        return p
+    fl = {}
+    p = wr('p_rect.svg', '<rect x="0" y="0" width="10" height="8" rx="2" ry="1"/>')
+    r = guarded(lambda: any(isinstance(s, Arc) for s in Document(p).paths()[0]))
+    fl['rect_attr'] = r.get('ok') is True
+    p = wr('p_clamp.svg', '<rect width="10" height="8" rx="8" ry="1"/>')
+    r = guarded(lambda: [s.radius.real for s in svg2paths(p)[0][0] if isinstance(s, Arc)][0])
+    fl['rect_clamp'] = r.get('ok') == 5.0
+    p = wr('p_line.svg', '<line x2="3" y2="4"/>')
+    r = guarded(lambda: svg2paths(p)[0][0].d())
+    fl['line_default'] = 'ok' in r
+    p = wr('p_empty.svg', '<path d="M0,0 L1,1"/><g id="E"></g>')
+    def f():
+        d = Document(p)
+        return len(d.paths_from_group(list(d.tree.getroot())[1]))
+    r = guarded(f)
+    fl['group_empty'] = r.get('ok') == 0
+    p1 = wr('p_saxline.svg', '<line x1="0" y1="0" x2="1" y2="1"/>')
+    r = guarded(lambda: len(SaxDocument(p1).tree))
+    fl['sax_line'] = r.get('ok') == 1
+    p2 = wr('p_nested.svg', '<g transform="translate(10,0)"><g transform="scale(2)"><path d="M0,0 L1,1"/></g></g>')
+    r = guarded(lambda: float(SaxDocument(p2).tree[0]['matrix'][0][2]))
+    fl['sax_order'] = r.get('ok') == 10.0
+    r = guarded(lambda: SaxDocument(p2).flatten_all_paths()[0][0].start)
+    fl['sax_keep'] = 'ok' in r and r['ok'] != 0j
+    for n in os.listdir(scratch):
+        if n.startswith('p_'):
+            os.remove(os.path.join(scratch, n))
+    return fl
+
+
+def cfg_coq(fl):
+    return '(mkCfg %s)' % ' '.join(common.coq_bool(fl[k]) for k in FLAGS)
+
 
 
 # ------------------------------------------------------- classification
@@ -574,13 +637,16 @@ def classify_elem(route, s, M, chain, what):
     """narrow key for a reference element whose geometry / matrix is not returned"""
     k, a = s['kind'], s['attrs']
     if k == 'rect' and ('rx' in a or 'ry' in a):
-        if route in ('document', 'group'):
+        if route in ('document', 'group') and not FL.get('rect_attr'):
             return 'doc-rounded-rect-loses-rounding'
         rx = a.get('rx', a.get('ry')); ry = a.get('ry', a.get('rx'))
-        if rx > a['width'] / 2 or ry > a['height'] / 2:
+        if not FL.get('rect_clamp') and (rx > a['width'] / 2 or ry > a['height'] / 2):
             return 'rect-radius-not-clamped'
     if route == 'sax' and what == 'geometry' and not is_identity(M):
-        return 'sax-flatten-discards-transform'
+        if not FL.get('sax_keep'):
+            return 'sax-flatten-discards-transform'
+        if not FL.get('sax_order') and chain_transforms(chain) >= 2:
+            return 'sax-matrix-order-child-dot-parent'
     if route == 'sax' and what == 'matrix':
         if chain_transforms(chain) >= 2:
             return 'sax-matrix-order-child-dot-parent'
@@ -588,12 +654,16 @@ def classify_elem(route, s, M, chain, what):
     return 'geometry-mismatch-%s-%s' % (route, k)
 
 
+RECT_ATTR = [False]     # set from the probes: rect2pathd sees rx/ry of Elements (Document routes)
+FL = {}                 # the detected variant (probe_flags)
+
+
 def has_arc(s, route):
     if s['kind'] in ('circle', 'ellipse'):
         return True
     if s['kind'] == 'path' and any(g[0] == 'A' for g in s.get('segs', [])):
         return True
-    if s['kind'] == 'rect' and route == 'sax' and ('rx' in s['attrs'] or 'ry' in s['attrs']):
+    if s['kind'] == 'rect' and (route == 'sax' or RECT_ATTR[0]) and ('rx' in s['attrs'] or 'ry' in s['attrs']):
         return True
     return False
 
@@ -658,6 +728,12 @@ def run(rep, tier, seed, replay=None):
     try:
         with common.Scratch() as tmp:
             info = common.std_static(rep, 'C17', (), (), tmp)
+            flags = probe_flags(scratch)
+            rep.cov['variant'] = flags
+            rep.notes.append('code variant detected by the probes (false = pinned 12ec128 behaviour): %s' % flags)
+            OKDEF = OKDEF_T % cfg_coq(flags)
+            RECT_ATTR[0] = flags['rect_attr']
+            FL.clear(); FL.update(flags)
             n_trees = 170 if tier == 'quick' else 1500
             todo = []
             if replay:
